@@ -157,6 +157,13 @@ func Reserve(ctx context.Context, h host.Host, ai peer.AddrInfo) (*Reservation, 
 				Reason: fmt.Sprintf("invalid voucher relay id: expected %s, got %s", signerPeerID, voucher.Relay),
 			}
 		}
+		if voucher.Relay != ai.ID {
+			// a self-consistent voucher of some other relay is not a voucher of this one
+			return nil, ReservationError{
+				Status: pbv2.Status_MALFORMED_MESSAGE,
+				Reason: fmt.Sprintf("voucher issued by a different relay: expected %s, got %s", ai.ID, voucher.Relay),
+			}
+		}
 		if h.ID() != voucher.Peer {
 			return nil, ReservationError{
 				Status: pbv2.Status_MALFORMED_MESSAGE,
